@@ -19,6 +19,7 @@ THEOREMS = {
         "Dawgs.C05.Props.unchecked_put_registers_twice",
         "Dawgs.C05.Props.assert_kinds_repeatable",
         "Dawgs.C05.Props.assert_kinds_old_order_depends_on_state",
+        "Dawgs.C05.Props.kind_ids_never_change",
     ],
     "Dawgs.Props.C05Facts": [
         "Dawgs.C05.Facts.table_nonempty",
@@ -30,6 +31,7 @@ THEOREMS = {
         "Dawgs.C05.Facts.generic_shape",
         "Dawgs.C05.Facts.sort_comparators_total",
         "Dawgs.C05.Facts.no_nondeterminism_sources",
+        "Dawgs.C05.Facts.no_shared_mutable_state",
         "Dawgs.C05.Facts.inputs_not_written",
         "Dawgs.C05.Facts.library_values_not_written",
         "Dawgs.C05.Facts.unguarded_partial_sites_known",
@@ -52,6 +54,79 @@ HAND_PANIC_SITES = [
     "translate.Translator.buildMultiPartQuery", "translate.Translator.buildDeletions", "translate.Translator.prepareFilterExpression",
     "translate.Translator.translateFilterExpression",
 ]
+
+
+TRUSTED_DET = ("TRUSTED STEP (Go semantics): a sequential Go program that contains none of the listed constructs and keeps no state outside "
+               "its arguments computes a function of its inputs")
+TRUSTED_WRITES = ("TRUSTED STEP: the typed syntactic classification of tools/extract/gotyped sees every write (an input is not reached through "
+                  "an alias of a different static type, e.g. a model value held in an `any`)")
+
+# clause of the statement (properties.jsonl, C05) -> proved for ALL inputs (hypotheses named) | kernel-checked table + ONE trusted step | searched only
+CLAUSES = {
+    "total: returns a result or an error, never panics":
+        "SEARCHED ONLY for the translator (every translation under recover: corpora, generated, mutated, builder-built, totality shapes). "
+        "PROVED only for the walker: generic_stops_at_first_error (every visitor: no callback after one that left an error, and that error is "
+        "returned; tie: Facts.generic_shape + differential suite walkc05). NARROWED by a kernel-checked table: of the partial operations of "
+        "translate/ (single-value type assertions, slice indexes / slices) the unguarded ones are exactly the pinned list "
+        "(Facts.unguarded_partial_sites_known); Go coverage shows on every run which of them the search executed. Nil dereferences, map/ "
+        "conversion panics, the `len-mentioned` guards and explicit panic() calls are not classified at all",
+    "bounded time: never hangs":
+        "SEARCHED ONLY (10 s budget per translation, measured maximum in the evidence). PROVED only for the walker: generic_terminates — at most "
+        "2 + 2*nodes iterations for every finite AST and every visitor, PROVIDED each callback returns (the translator's callbacks are not "
+        "modelled; their loops and recursions are not classified)",
+    "repeat: byte-identical SQL and equal parameters":
+        "KERNEL-CHECKED TABLES + ONE TRUSTED STEP. Tables (regenerated from the sources every run, translate/ optimize/ format/ pgsql/ cypher/ "
+        "walk/): Facts.no_order_sensitive_range (every map range has an order-free shape or is one of 3 exempt loops with reason: "
+        "exempt_have_reasons, justified_all_present; the PruneDefinitions exemption is C06's prune_alias_choice_unique, hypotheses: alias keys "
+        "Nodup and the other order is a permutation), Facts.sort_comparators_total, Facts.no_nondeterminism_sources (no select / go / clock / "
+        "random / sync.Map / reflective or iterator map traversal / %p / unsafe / environment), Facts.no_shared_mutable_state (NEW: no "
+        "package-level variable is written, address-taken or aliased; all mutable state hangs off the per-call Translator). Lean lemmas the "
+        "shapes instantiate, for ALL lists: fold_perm_invariant (hypothesis: the step is right-commutative on the elements present), "
+        "map_insert_order_free (hypothesis: keys pairwise distinct — true of a Go map's entries), set_insert_order_free, lookup_order_free, "
+        "max_fold_order_free, sorted_order_free (hypotheses: the order is transitive, total, antisymmetric — what sort_comparators_total pins). "
+        "Kind ids inside the SQL: assert_kinds_repeatable (no hypothesis: ids come back in the order of the kinds, a second call changes "
+        "nothing and returns the same list) given Facts.assert_kinds_order (the source is the position-wise version). " + TRUSTED_DET +
+        ". The end-to-end byte comparison of 10 sequential runs per case is confirmation by search",
+    "concurrent against a shared kind mapper: same SQL and parameters":
+        "KERNEL-CHECKED TABLES + ONE TRUSTED STEP for isolation, LEAN PROOF for the one shared object. Isolation: Facts.no_shared_mutable_state "
+        "+ Facts.no_nondeterminism_sources (no goroutine is started, nothing but the mapper is shared) + the same trusted step as for repeat. "
+        "Kind mapper, for EVERY interleaving of any number of goroutines with any kind lists: assert_kinds_idempotent (hypothesis: the mapper "
+        "starts consistent, KMInv; atomicity granularity = one lock acquisition per mapKinds / Put) — one id per kind, ids distinct and "
+        "dense, every returned AssertKinds has all its kinds registered; kind_ids_never_change (NEW; hypothesis: the kind is registered) — an id "
+        "once handed out is that kind's id in every continuation of the history, so concurrent and later calls read the same id; "
+        "unchecked_put_registers_twice shows the re-check inside the lock is necessary. Premises as source facts: Facts.kind_mapper_locked "
+        "(= C05_kindmapper_full), kind_mapper_check_then_act, kind_mapper_single_writer, kinds_interned_atomically (graph.StringKind uses one "
+        "atomic LoadOrStore; shared with C12). TRUSTED STEP: sync.RWMutex / sync.Map give the atomicity the LTS assumes (Go memory model). "
+        "16 concurrent translations per case, fresh-kind CREATEs, parse-inside-the-goroutine cases and (thorough) the race detector are search",
+    "caller's AST unchanged":
+        "KERNEL-CHECKED TABLES + ONE TRUSTED STEP. optimize_isolated (hypotheses: every address of the caller's tree is below the allocation "
+        "counter, every write goes through an address of the COPY) with copy_equal_and_fresh (all cells of a copy are new; minimal address "
+        "model — that cypher.Copy is deep field by field is C11's theorem over the regenerated schema); Facts.caller_query_only_copied "
+        "(Optimize uses its argument only for the nil test and cypher.Copy; Translate passes the query only to Optimize); "
+        "Facts.inputs_not_written (translate/ format/ pgsql/ contain no assignment, delete, mutating method or reflective setter on a cypher "
+        "model value at all). " + TRUSTED_WRITES + ". ToSexp(AST) before / between / after the 26 runs is confirmation by search",
+    "caller's parameter map unchanged":
+        "KERNEL-CHECKED TABLES + ONE TRUSTED STEP for the map and for graph-package values, SEARCHED for other nested values. "
+        "Facts.parameter_map_copied (NewTranslator reads the map and keeps an entry-by-entry copy; no write through a `parameters` field), "
+        "Facts.inputs_not_written (every write into a map[string]any goes into a map made in that function, the result map, or a field that "
+        "only ever holds such maps), Facts.library_values_not_written (every method called on a graph value is non-mutating by the C12 API "
+        "table). " + TRUSTED_WRITES + ". The copy is SHALLOW: that nested parameter VALUES (slices, maps, pointers other than the "
+        "graph types) are not written is covered by the structural before/after comparison only (nil-vs-empty included; this found "
+        "MapStringAnyToJSONB, fixed 0d591b4)",
+    "searched only (tie)":
+        "that Model/C05.lean's walker is walk.Generic: differential suite walkc05 (all trees <= 4/5 nodes x every action at every callback + "
+        "random trees) plus Facts.generic_shape; that the kind-mapper LTS is pgutil.InMemoryKindMapper: lock table facts + the km / kmrace "
+        "harness cases; that cypher.Copy is deep (C11); the extractors' classifications themselves (a loop shape, a write target, a guard) — "
+        "checked against the code only by the seeded-defect rounds; the whole battery (26 runs per case, byte comparison) as the end-to-end "
+        "confirmation of every clause",
+    "named assumptions":
+        "ASTs come from the parser or the builders of /repo/query (hand-assembled / mutated values with nil optionals are outside the quantifier: "
+        "panics there are reported as information); the shared mapper is pgutil.InMemoryKindMapper (the database-backed SchemaManager is "
+        "read-only in AssertKinds' fast path and was only read, not modelled); exported package variables of the six packages are not "
+        "reassigned by code OUTSIDE them (the table scans the six packages); cypher.GreedyRangeQuantifier is one pointer shared by all parsed "
+        "ASTs (frontend) and is covered by inputs_not_written like any model value; Go semantics for the two trusted steps; kinds and ids are "
+        "Nat in the LTS (int16 ids in Go: overflow after 32767 kinds not modelled)",
+}
 
 
 def do_regen(ctx):
@@ -117,13 +192,18 @@ def nontrivial(ops, impl):
 
 def extra_coverage(ctx, stats):
     return {
+        "clause_map": CLAUSES,
+        "full_statement": "def Dawgs.C05.Props.C05_full (abstract implementation; NOT proved for the Go translator, its doc comment lists what carries "
+                          "each conjunct); def Dawgs.C05.Facts.C05_kindmapper_full (proved: kind_mapper_locked)",
+        "stated_goals_not_proved": ["C05_full for translate.Translate: totality and bounded time are searched only; determinism and side-effect "
+                                    "freedom rest on kernel-checked tables plus one trusted step each"],
         "translations_run": stats.get("translations", 0),
         "max_translation_batch_ms": stats.get("max_ms", 0),
         "time_budget_per_translation_s": 10,
         "sequential_runs_per_case": 10,
         "concurrent_runs_per_case": 16,
         "traces_validated_against_impl": stats.get("walk.ok", 0) + stats.get("walk.err", 0) + stats.get("walk.conserr", 0),
-        "panic_freedom": "search only (corpus + generated + mutated + builder + hand-assembled ASTs); not proved",
+        "panic_freedom": "search only (corpus + generated + mutated + builder ASTs; hand-assembled ones are outside the quantifier); not proved",
     }
 
 
@@ -168,43 +248,44 @@ SPEC = {
                     "concurrency: one InMemoryKindMapper is shared by the whole run; the race probe asserts NEW kinds from 16 goroutines (locked since the fix)"],
     "extra_coverage": extra_coverage,
     "explanation": "Lean proofs: walker termination / error discipline, copy isolation, order-independence lemmas, kind-mapper contract over the lock-level LTS. Kernel-checked "
-                   "typed tables: every map range order-insensitive or exempt with reason, no other nondeterminism source, no write into AST / caller's parameter map, kind "
-                   "mapper lock discipline, unguarded partial operations pinned. Trusted: Go semantics for the last step of determinism and side-effect freedom. Searched only: "
-                   "panic-freedom (nil dereferences, unverified guards), bounded time, end-to-end byte determinism and input immutability as confirmation",
+                   "typed tables: every map range order-insensitive or exempt with reason, no other nondeterminism source, no package-level state written or aliased "
+                   "(no_shared_mutable_state), no write into AST / caller's parameter map, kind "
+                   "mapper lock discipline, unguarded partial operations pinned; kind ids never change once handed out (kind_ids_never_change). Trusted: Go semantics for the last step of determinism and side-effect freedom. Searched only: "
+                   "panic-freedom (nil dereferences, unverified guards), bounded time, end-to-end byte determinism and input immutability as confirmation. coverage.clause_map: clause -> theorem / table + trusted step / search",
 }
 
 MANIFEST = {
     "category": "other",
     "technique": "Lean 4 proofs of the structural ingredients + kernel-checked side conditions (`decide`) over TYPED fact tables regenerated from the sources "
-                 "(go/types extractor) for determinism and side-effect freedom + differential tie of the walker model + a 26-fold repeated/concurrent translation "
-                 "search under recover, time budget, coverage measurement of the unguarded partial operations and (thorough) the race detector",
-    "text": "STILL PARTIAL (category other), but the determinism and side-effect clauses are now reduced to ONE trusted step each. "
-            "PROVED in Lean for all inputs: walk.Generic does at most 2 iterations per AST node and never calls back after a callback left an error, which it returns "
-            "(model tied to the real generic walker); writes into a deep copy cannot reach the original; a fold over a map's entries is order-independent for every loop "
-            "shape used (fold_perm_invariant + 5 instances); the in-memory kind mapper gives every kind exactly one id under EVERY interleaving of AssertKinds/Put "
-            "(assert_kinds_idempotent over the lock-level LTS). "
-            "KERNEL-CHECKED on tables regenerated from the current sources: DETERMINISM — every `range` over a map in translate/, optimize/, format/, pgsql/ (+ cypher/, walk/, "
-            "pgutil) has an order-insensitive shape recognised by the extractor (writes only into another map/set, commutative accumulation, sorted before use, constant-result "
-            "test) or is one of three exempt loops with a stated reason (no_order_sensitive_range, exempt_have_reasons); every sort with a caller-supplied order is a total order on the elements (sort_comparators_total; none exists "
-            "today, and the range classifier applies the same rule to sorted-before-use); there is NO select, go statement, clock, random, "
-            "sync.Map, reflective or iterator map traversal, %p, unsafe or environment read in those packages (no_nondeterminism_sources). TRUSTED STEP: a sequential Go program "
-            "without these constructs computes a function of its inputs. SIDE-EFFECT FREEDOM — no assignment, delete, mutating method or reflective setter in translate/, "
-            "format/, pgsql/ targets a cypher model value; every write into a map[string]any goes into a map made in the same function, the translation's result map, or a "
-            "field that only ever holds such maps; NewTranslator copies the caller's parameter map; Optimize uses the caller's query only through cypher.Copy and Translate "
-            "only through Optimize; the kind mapper is only read except AssertKinds from the CREATE builders, the one allowed effect (inputs_not_written, parameter_map_copied, "
-            "caller_query_only_copied); every method called on a graph-package value (a caller's parameter value) is non-mutating by the C12 API table "
-            "(library_values_not_written). TRUSTED STEP: the typed syntactic classification sees every write (no aliasing of an input through a differently typed path; nested "
-            "parameter VALUES other than map[string]any are covered by the run-time deep comparison only). The kind mapper's lock table: every method touching the maps holds "
-            "the lock, check and allocation share one critical section (kind_mapper_locked, kind_mapper_check_then_act). "
-            "TOTALITY — NOT proved. Narrowed: of the partial operations of translate/ (single-value type assertions, slice indexes, slice expressions) 80 are structurally safe, "
-            "95 have a length test of the same expression somewhere in the function (not verified), 26 have no recognisable guard and are pinned by "
-            "unguarded_partial_sites_known; Go coverage instrumentation shows on every run which of the 26 the search executes under recover (21 now; the other 5 are "
-            "self-consistent assertions / sized copies, reason listed in the evidence). Nil dereferences, the 95 unverified guards, bounded time and the end-to-end "
-            "byte-identity of 10 sequential + 16 concurrent translations per case with before/after comparison of AST and parameters are SEARCHED ONLY: corpus, generated, "
-            "mutated, builder-built and hand-assembled ASTs, multi-path shapes, fresh-kind CREATEs against one shared mapper.",
-    "note": "Five defects found by this check are fixed in /repo (known_findings.json, status fixed). Panics on hand-assembled or mutated ASTs that parser and builders never "
-            "produce are outside the quantifier and counted as information only. Trusted: Lean kernel, the two extractors (go/ast, go/types), the harness, Go's semantics "
-            "for the two steps named above.",
+                 "(go/types extractor) for determinism, isolation and side-effect freedom + differential tie of the walker model + a 26-fold repeated/concurrent "
+                 "translation search under recover, time budget, coverage measurement of the unguarded partial operations and (thorough) the race detector",
+    "text": "PARTIAL (category other). Clause by clause (coverage.clause_map): "
+            "TOTAL and BOUNDED TIME — searched only; proved just for walk.Generic (at most two iterations per AST node provided each callback returns; never a "
+            "callback after one that left an error, which is what it returns; model tied to the real walker) and narrowed by a kernel-checked list of the 23 "
+            "expressions in translate/ that are unguarded partial operations, with Go coverage showing which of them each run executes under recover. "
+            "REPEAT = BYTE-IDENTICAL — kernel-checked tables plus ONE trusted step: every `range` over a map in translate/, optimize/, format/, pgsql/, cypher/, walk/, "
+            "pgutil has an order-insensitive shape (each shape a Lean lemma over all lists: fold_perm_invariant with its commutation hypothesis and 5 instances) or is "
+            "one of three exempt loops with a stated reason; every caller-ordered sort is a total order; there is no select, go statement, clock, random, sync.Map, "
+            "reflective / iterator map traversal, %p, unsafe or environment read; NEW: no package-level variable is written, address-taken or leaves through an alias, "
+            "i.e. all mutable state is per call (no_shared_mutable_state); AssertKinds returns ids position-wise and a repeated call returns the same list "
+            "(assert_kinds_repeatable). Trusted step: a sequential Go program without these constructs and without state outside its arguments is a function of its inputs. "
+            "CONCURRENT = SAME — the same isolation tables and step, and for the single shared object a Lean proof over EVERY interleaving of any number of goroutines: "
+            "a consistent in-memory kind mapper keeps exactly one id per kind (assert_kinds_idempotent) and an id once handed out never changes in any continuation "
+            "(kind_ids_never_change, new); the premises are source facts (every method touching the maps holds the lock; check and allocation in one critical "
+            "section; graph.StringKind interns through one atomic LoadOrStore); trusted: sync primitives provide that atomicity. "
+            "CALLER'S AST UNCHANGED — tables plus one trusted step: Optimize touches the caller's query only through cypher.Copy and Translate only through Optimize; writes "
+            "into a deep copy cannot reach the original (optimize_isolated; deepness of Copy is C11's theorem); no assignment, delete, mutating method or reflective setter "
+            "anywhere in translate/, format/, pgsql/ targets a cypher model value. CALLER'S PARAMETER MAP UNCHANGED — NewTranslator copies the map entry by entry; every "
+            "write into a map[string]any goes into a map made locally, the result map or a field that only holds such maps; every method called on a graph-package value "
+            "is non-mutating by the C12 API table. Trusted step for both: the typed classification sees every write. Nested parameter values other than graph types are "
+            "covered only by the run-time deep comparison. "
+            "SEARCH (confirmation of every clause, sole support of the first two): per case the SAME AST object and parameter map translated 10x sequentially and 16x "
+            "concurrently against one shared mapper, all outcomes byte-compared, inputs compared before / between / after; corpus, generated, mutated, builder-built ASTs, "
+            "multi-path shapes, case-colliding property maps, library-typed parameter values, fresh-kind CREATEs incl. first interning inside the goroutines.",
+    "note": "The full statement is visible as def C05_full (abstract implementation) and is NOT proved for the Go translator. All six defects this check found are fixed in /repo "
+            "(known_findings.json: nil-parameter panic, two quantifier panics 96c29d3, MapStringAnyToJSONB writing a caller value 0d591b4, unsynchronised kind mapper 8bba343, "
+            "AssertKinds id order 576f2e1); none is pending. Panics on hand-assembled or mutated ASTs that parser and builders never produce are outside the quantifier and "
+            "counted as information only. Trusted: Lean kernel, the extractors (go/ast, go/types), the harness, Go's semantics for the steps named above.",
 }
 
 
